@@ -152,9 +152,16 @@ Proof. exact read_marked_dir_text. Qed.
 
 (* the order on names the reader model sorts by (parts by index) IS the byte order of the real file names, for
    the name format regenerated from both savers (part_prefix = "part-", part_width = 5), below 10^5 partitions *)
-Theorem C09_part_names_sort_by_index : forall a b, valid_name a -> valid_name b ->
-  name_leb a b = lex_leb (name_string a) (name_string b).
+Theorem C09_part_names_sort_by_index : forall sfx a b, valid_name a -> valid_name b ->
+  name_leb a b = lex_leb (name_string sfx a) (name_string sfx b).
 Proof. exact name_order. Qed.
+(* for every codec suffix [sfx] of the target ('.gz', '.bz2', ... or none): the marker's file name is exactly
+   '_SUCCESS' (regenerated marker_base / marker_suffixed: only part files carry the suffix), and no part file
+   can take its place *)
+Theorem C09_marker_name_is_plain : forall sfx, name_string sfx NMarker = [95; 83; 85; 67; 67; 69; 83; 83]%N.
+Proof. exact marker_name_plain. Qed.
+Theorem C09_part_name_not_marker : forall sfx i, name_string sfx (NPart i) <> name_string sfx NMarker.
+Proof. exact part_name_not_marker. Qed.
 
 (* ---- the tie to the source: these fail when the statement order of the savers / of runJob changes ---- *)
 Theorem C09_text_order : text_steps = [SCheckExists; SSingle; SRunJob; SMarker].
@@ -225,8 +232,15 @@ Example resave_refused :
 Proof. vm_compute. reflexivity. Qed.
 (* the real names: part-00007, and the bound of C09_part_names_sort_by_index is the format's own *)
 Example part_name_example :
-  name_string (NPart 7) = [112; 97; 114; 116; 45; 48; 48; 48; 48; 55]%N /\ valid_name (NPart 4321) /\ valid_name (NOther 4).
+  name_string [] (NPart 7) = [112; 97; 114; 116; 45; 48; 48; 48; 48; 55]%N /\ valid_name (NPart 4321) /\ valid_name (NOther 4).
 Proof. split; [reflexivity|split]; [reflexivity|]. unfold valid_name. repeat constructor. Qed.
+(* a target 'out.tar.gz': part-00007.gz and _SUCCESS *)
+Example codec_target_names :
+  let sfx := suffix_from_last_dot [46; 116; 97; 114; 46; 103; 122]%N in
+  sfx = [46; 103; 122]%N /\
+  name_string sfx (NPart 7) = [112; 97; 114; 116; 45; 48; 48; 48; 48; 55; 46; 103; 122]%N /\
+  name_string sfx NMarker = [95; 83; 85; 67; 67; 69; 83; 83]%N.
+Proof. repeat split. Qed.
 (* StopIteration from partition 1 on every attempt (hypotheses of C09_compute_stop_surfaces_as_runtime_error):
    RuntimeError at the caller, part 0 written, parts 1 and 2 not, no marker, lock free *)
 Example stop_iteration_in_task :
